@@ -65,17 +65,21 @@ MC_ORACLE static void compare (int which, const char *ref, int rl, const char *b
 	} else if (l > n - 1) mc_fail ("%s: result longer than the buffer", nm[which]);
 }
 static void ds_observer (void) {
-	int which, n; unsigned left;
+	int which, n, k; unsigned left;
 	for (which = 0; which < 4; which++) {
 		char *ref = (char *) mc_malloc (1024); int rl;
 		call (which, ref, 1024);
 		rl = slen (ref, 1024);
 		mc_assert (rl > 0, "reference debug string empty or unterminated");
-		for (n = 0; n <= 80; n++) {
-			char *buf = (char *) mc_malloc (n > 0 ? n : 1);
+		/* n = 0..80, and the five sizes around the exact length of the untruncated text (the
+		   terminator's own bounds check matters exactly when the text fills the buffer) */
+		for (k = 0; k <= 80 + 5; k++) {
+			char *buf;
+			n = k <= 80 ? k : rl - 2 + (k - 81);
+			if (k > 80 && n <= 80) continue;
+			buf = (char *) mc_malloc (n > 0 ? n : 1);
 			if (n > 0) memset (buf, 'x', n);
 			mc_assert (call (which, buf, n) == buf, "debug-state function did not return its buffer");
-			if (n == 0) mc_assert (buf[0] == 0 || buf[0] != 0, "unreachable");
 			compare (which, ref, rl, buf, n);
 		}
 	}
